@@ -69,17 +69,19 @@ Definition got (g : gpc) : list tg := match g with GGot t => [t] | _ => [] end.
 Definition pend (p : spc) (k r : nat) : list tg :=
   match p with
   | SIdle => []
+  | SWant t => [t]
   | SIter t _ vis => if memb k vis then [] else [t]
   | SHold t _ vis c => if c =? r then [t] else if memb k vis then [] else [t]
   end.
 
 Definition sp_snap (p : spc) : option (list nat) :=
-  match p with SIdle => None | SIter _ sn _ => Some sn | SHold _ sn _ _ => Some sn end.
+  match p with SIdle | SWant _ => None | SIter _ sn _ => Some sn | SHold _ sn _ _ => Some sn end.
 
 Record SInv (s : st) : Prop := {
   S_panic : panic s = None;
   S_race : race s = false;
   S_wr : writing s = None;
+  S_lock : lock s = (if iterating s then LkRead else LkFree);
   S_nodup : NoDup (keys s);
   S_map : smap s = combine (keys s) (seq 0 (length (keys s)));
   S_lg : length (gs s) = length (keys s);
@@ -120,23 +122,26 @@ Qed.
 Theorem stable_step_inv : forall l s s', stable l = true -> SInv s -> step l s = Some s' -> SInv s'.
 Proof.
   intros l s s' Hst I H. unfold step in H. rewrite (S_panic _ I) in H.
-  pose proof I as I0. destruct I as [Kp Kr Kw Kn Km Klg Klc Kld Kg Ko Ksn Kh Ka].
+  pose proof I as I0. destruct I as [Kp Kr Kw Klk Kn Km Klg Klc Kld Kg Ko Ksn Kh Ka].
   destruct l; try discriminate Hst.
   - (* Commit *)
     destruct (N.of_nat (length (schan s)) <? capS s)%N; try discriminate. inv_some.
-    constructor; cbn; auto.
+    constructor; cbn; auto; try (unfold iterating in Klk; try rewrite Es in Klk; exact Klk).
     intros r k g c d Hk Hg Hc Hd. rewrite <- (Ka r k g c d Hk Hg Hc Hd). rewrite <- !app_assoc. reflexivity.
   - (* SRecv *)
     destruct (sp s) eqn:Es; try discriminate. destruct (schan s) as [|t rest] eqn:Eq; try discriminate. inv_some.
-    constructor; cbn; auto.
+    constructor; cbn; auto; try discriminate; try (unfold iterating in Klk; try rewrite Es in Klk; exact Klk).
+  - (* SLock *)
+    destruct (sp s) as [|t| |] eqn:Es; try discriminate. destruct (lock s) eqn:El; try discriminate. inv_some.
+    constructor; cbn; auto; try (unfold iterating in Klk; try rewrite Es in Klk; exact Klk).
     + intros sn H. inversion H. rewrite Km. apply map_fst_combine_seq.
     + intros. discriminate.
   - (* SNext *)
-    destruct (sp s) as [|t sn vis|] eqn:Es; try discriminate.
+    destruct (sp s) as [| |t sn vis|] eqn:Es; try discriminate.
     destruct (lookup (smap s) k) as [c|] eqn:El; try discriminate.
     destruct (memb k vis) eqn:Em; try discriminate. rewrite Kw in H. inv_some.
     rewrite Km in El. apply lookup_combine in El as [_ El]. rewrite Nat.sub_0_r in El.
-    constructor; cbn; auto.
+    constructor; cbn; auto; try (unfold iterating in Klk; try rewrite Es in Klk; exact Klk).
     + intros t' sn' vis' c' H. inversion H; subst. exists k. split; auto. cbn. rewrite Nat.eqb_refl. reflexivity.
     + intros r k' g ch d Hk Hg Hc Hd. rewrite <- (Ka r k' g ch d Hk Hg Hc Hd). cbn.
       destruct (Nat.eqb_spec c r).
@@ -144,21 +149,21 @@ Proof.
       * destruct (Nat.eqb_spec k' k); [subst; exfalso; apply n; eapply keys_inj; eauto|].
         cbn. reflexivity.
   - (* SEnd *)
-    destruct (sp s) as [|t sn vis|] eqn:Es; try discriminate.
+    destruct (sp s) as [| |t sn vis|] eqn:Es; try discriminate.
     destruct (forallb _ (smap s)) eqn:Ef; try discriminate. rewrite Kw in H. inv_some.
     assert (sn = keys s) by (apply Ksn; reflexivity). subst sn.
-    constructor; cbn; auto; try discriminate.
+    constructor; cbn; auto; try discriminate; try (unfold iterating in Klk; try rewrite Es in Klk; exact Klk).
     intros r k g c d Hk Hg Hc Hd. rewrite <- (Ka r k g c d Hk Hg Hc Hd). cbn.
     rewrite forallb_forall in Ef. specialize (Ef (k, r)). rewrite Km in Ef.
     specialize (Ef (in_combine_seq _ 0 r k Hk)). cbn in Ef.
     assert (memb k (keys s) = true) by (apply memb_In; eapply nth_error_In; eauto).
     rewrite H in Ef. cbn in Ef. rewrite Ef. reflexivity.
   - (* SSend *)
-    destruct (sp s) as [| |t sn vis c] eqn:Es; try discriminate.
+    destruct (sp s) as [| | |t sn vis c] eqn:Es; try discriminate.
     destruct (nth_error (chs s) c) as [ch|] eqn:Ec; try discriminate.
     rewrite (Ko _ _ Ec) in H. destruct (N.of_nat (length (q ch)) <? capC s)%N; try discriminate. inv_some.
     destruct (Kh _ _ _ _ eq_refl) as [kc [Hkc Hmc]].
-    constructor; cbn; auto.
+    constructor; cbn; auto; try (unfold iterating in Klk; try rewrite Es in Klk; exact Klk).
     + rewrite length_upd. exact Klc.
     + intros r c' H. ucase c r; [inversion H; reflexivity | eauto].
     + intros. discriminate.
@@ -177,7 +182,7 @@ Proof.
     destruct g; try discriminate.
     destruct (nth_error (chs s) r) as [ch|] eqn:Ec; try discriminate.
     destruct (q ch) as [|t rest] eqn:Eq; try discriminate. inv_some.
-    constructor; cbn; auto.
+    constructor; cbn; auto; try (unfold iterating in Klk; try rewrite Es in Klk; exact Klk).
     + rewrite length_upd. exact Klg.
     + rewrite length_upd. exact Klc.
     + intros r' g H. ucase r r'; [inversion H; eauto | eauto].
@@ -190,7 +195,7 @@ Proof.
     destruct ok; try discriminate Hst.
     destruct (nth_error (gs s) r) as [g|] eqn:Eg; try discriminate.
     destruct g; try discriminate. inv_some.
-    constructor; cbn; auto.
+    constructor; cbn; auto; try (unfold iterating in Klk; try rewrite Es in Klk; exact Klk).
     + rewrite length_upd. exact Klg.
     + rewrite length_upd. exact Kld.
     + intros r' g H. ucase r r'; [inversion H; eauto | eauto].
@@ -209,6 +214,9 @@ Proof.
     destruct (nth_error (gs s) r) as [g|] eqn:Eg; try discriminate.
     destruct (Kg _ _ Eg) as [->|[t ->]]; discriminate.
   - (* GCloseL *)
+    destruct (nth_error (gs s) r) as [g|] eqn:Eg; try discriminate.
+    destruct (Kg _ _ Eg) as [->|[t ->]]; discriminate.
+  - (* GDrain *)
     destruct (nth_error (gs s) r) as [g|] eqn:Eg; try discriminate.
     destruct (Kg _ _ Eg) as [->|[t ->]]; discriminate.
 Qed.
@@ -277,8 +285,8 @@ Proof.
   - exists a. auto.
 Qed.
 
-Lemma or5 : forall a b c d e, a = true \/ b = true \/ c = true \/ d = true \/ e = true -> a || b || c || d || e = true.
-Proof. intros a b c d e H. destruct a, b, c, d, e; try reflexivity. destruct H as [H|[H|[H|[H|H]]]]; discriminate. Qed.
+Lemma or6 : forall a b c d e f, a = true \/ b = true \/ c = true \/ d = true \/ e = true \/ f = true -> a || b || c || d || e || f = true.
+Proof. intros a b c d e f H. destruct a, b, c, d, e, f; try reflexivity. destruct H as [H|[H|[H|[H|[H|H]]]]]; discriminate. Qed.
 
 (** The master does not block by itself: whenever Sender.Send (the WAL loop) cannot proceed, the
     sender goroutine or a stream goroutine can.  (That a stream goroutine's stream.Send eventually
@@ -286,15 +294,16 @@ Proof. intros a b c d e H. destruct a, b, c, d, e; try reflexivity. destruct H a
 Theorem stable_progress_inv : forall s, SInv s -> (0 < capS s)%N -> (0 < capC s)%N ->
   enabled Commit s = true \/ internal_enabled s = true.
 Proof.
-  intros s I HcS HcC. destruct I as [Kp Kr Kw Kn Km Klg Klc Kld Kg Ko Ksn Kh Ka].
+  intros s I HcS HcC. destruct I as [Kp Kr Kw Klk Kn Km Klg Klc Kld Kg Ko Ksn Kh Ka].
   unfold internal_enabled, enabled, step. rewrite Kp.
-  destruct (sp s) as [|t sn vis|t sn vis c] eqn:Es.
+  destruct (sp s) as [|t0|t sn vis|t sn vis c] eqn:Es.
   - destruct (schan s) as [|t r] eqn:Eq.
     + left. cbn. destruct (0 <? capS s)%N eqn:E; auto. apply N.ltb_ge in E. lia.
-    + right. apply or5. left. reflexivity.
+    + right. apply or6. left. reflexivity.
+  - right. apply or6. right. left. unfold iterating in Klk. rewrite Es in Klk. rewrite Klk. reflexivity.
   - right. rewrite Kw.
     destruct (forallb (fun e => negb (memb (fst e) sn) || memb (fst e) vis) (smap s)) eqn:Ef.
-    + apply or5. right. left. reflexivity.
+    + apply or6. right. right. left. reflexivity.
     + assert (exists k, In k (keys s) /\ (exists c, lookup (smap s) k = Some c) /\ memb k vis = false) as [k [Hin [[c Hl] Hm]]].
       { clear -Ef Km Kn. assert (forall e, In e (smap s) -> In (fst e) (keys s) /\ exists c, lookup (smap s) (fst e) = Some c) as Hall.
         { intros [k c] Hin. rewrite Km in Hin. pose proof (in_combine_l _ _ _ _ Hin) as Hk. split; auto.
@@ -305,13 +314,13 @@ Proof.
                  | Some c0 => if memb k0 vis then None else Some (set_sp s (SHold t sn (k0 :: vis) c0))
                  | None => None end) with Some _ => true | None => false end) (keys s) = true) as X.
       { apply existsb_exists. exists k. split; auto. rewrite Hl, Hm. reflexivity. }
-      apply or5. right. right. right. left. exact X.
+      apply or6. right. right. right. right. left. exact X.
   - right. destruct (Kh _ _ _ _ eq_refl) as [k [Hk Hm]].
     assert (c < length (keys s)) as Hlt by (apply nth_error_Some; congruence).
     destruct (nth_error (chs s) c) as [ch|] eqn:Ec; [|apply nth_error_None in Ec; lia].
     rewrite (Ko _ _ Ec).
     destruct (N.of_nat (length (q ch)) <? capC s)%N eqn:Ecap.
-    + apply or5. right. right. left. reflexivity.
+    + apply or6. right. right. right. left. reflexivity.
     + apply N.ltb_ge in Ecap.
       destruct (nth_error (gs s) c) as [g|] eqn:Eg; [|apply nth_error_None in Eg; lia].
       assert (existsb (fun r => match (match nth_error (gs s) r, nth_error (chs s) r with
@@ -326,7 +335,7 @@ Proof.
         destruct (Kg _ _ Eg) as [->|[t0 ->]].
         - destruct (q ch) as [|t0 rest]; [cbn in Ecap; lia | reflexivity].
         - cbn. reflexivity. }
-      apply or5. right. right. right. right. exact X.
+      apply or6. right. right. right. right. right. exact X.
 Qed.
 
 Theorem stable_progress : forall ks cs cc ls s, NoDup ks -> forallb stable ls = true ->
@@ -352,4 +361,211 @@ Proof.
   destruct (nth_error (keys s) r) as [k|] eqn:Ek; [|apply nth_error_None in Ek; lia].
   pose proof (S_acct _ I r k GLoop c d Ek Hg Hc Ed) as A. rewrite Hsp, Hsc, Hq in A. cbn in A.
   rewrite app_nil_r in A. congruence.
+Qed.
+
+(* ------------------------------------------------------------------ no fault, from [init], every schedule *)
+Definition live (g : gpc) : Prop := match g with GLoop | GGot _ | GDel | GDeling => True | _ => False end.
+Definition wlocked (g : gpc) : Prop := match g with GIns | GDeling | GClose => True | _ => False end.
+
+Record LInv (s : st) : Prop := {
+  L_panic : panic s = None;
+  L_race : race s = false;
+  L_wr : forall r, writing s = Some r -> lock s = LkWrite r;
+  L_it : iterating s = true -> lock s = LkRead;
+  L_g : forall r g, nth_error (gs s) r = Some g -> wlocked g -> lock s = LkWrite r;
+  L_map : forall k c, In (k, c) (smap s) -> exists g, nth_error (gs s) c = Some g /\ live g /\ k = nth c (keys s) 0;
+  L_cl : forall c ch, nth_error (chs s) c = Some ch -> closed ch = true -> nth_error (gs s) c = Some GDone;
+  L_hold : forall t sn vis c, sp s = SHold t sn vis c -> exists k, In (k, c) (smap s);
+  L_wg : forall r, writing s = Some r -> nth_error (gs s) r = Some GIns \/ nth_error (gs s) r = Some GDeling
+}.
+
+Lemma linv_init : forall ks cs cc, LInv (init ks cs cc).
+Proof.
+  intros. constructor; unfold init; cbn; auto; try discriminate.
+  - intros r g H W. rewrite nth_error_map in H. destruct (nth_error ks r); inversion H; subst. destruct W.
+  - intros k c [].
+  - intros c ch H. rewrite nth_error_map in H. destruct (nth_error ks c); inversion H; subst. discriminate.
+Qed.
+
+Lemma lookup_In : forall m k c, lookup m k = Some c -> In (k, c) m.
+Proof.
+  induction m as [|[k' c'] r IH]; intros k c H; cbn in H; try discriminate.
+  destruct (Nat.eqb_spec k' k).
+  - inversion H; subst. left. reflexivity.
+  - right. apply IH. exact H.
+Qed.
+Lemma remove_key_In : forall m k0 k c, In (k, c) (remove_key m k0) -> In (k, c) m /\ k <> k0.
+Proof.
+  intros m k0 k c H. unfold remove_key in H. apply filter_In in H as [H1 H2]. split; auto.
+  cbn in H2. intro X. subst. rewrite Nat.eqb_refl in H2. discriminate.
+Qed.
+
+Ltac gcase a b := destruct (Nat.eq_dec a b) as [<-|Hne];
+  [ repeat erewrite nth_error_upd_same in * by eassumption
+  | repeat rewrite nth_error_upd_other in * by assumption ].
+
+(** taking the write lock and beginning a map write *)
+Lemma linv_write_begin : forall s s' r g0 p, LInv s -> nth_error (gs s) r = Some g0 ->
+  ~ wlocked g0 -> (live g0 -> live p) -> g0 <> GDone -> wlocked p -> (p = GIns \/ p = GDeling) ->
+  map_write_begin s r p = Some s' -> LInv s'.
+Proof.
+  intros s s' r g0 p I Eg Hnw Hlive Hnd Hwp Hp H. destruct I as [Kp Kr Kw Ki Kg Km Kc Kh Kwg].
+  unfold map_write_begin in H. destruct (lock s) eqn:El; try discriminate.
+  assert (Ew : writing s = None).
+  { destruct (writing s) eqn:E; auto. specialize (Kw _ eq_refl). congruence. }
+  assert (Eit : iterating s = false).
+  { destruct (iterating s) eqn:E; auto. specialize (Ki eq_refl). congruence. }
+  rewrite Ew in H. inv_some. constructor; cbn; auto.
+  - rewrite Kr, Eit. reflexivity.
+  - intros r' X. inversion X. reflexivity.
+  - unfold iterating in *. cbn. rewrite Eit. discriminate.
+  - intros r' g Hg W. gcase r r'; [reflexivity|]. specialize (Kg _ _ Hg W). congruence.
+  - intros k c Hin. destruct (Km k c Hin) as [g [H1 [H2 H3]]]. gcase r c.
+    + exists p. split; auto. split; auto. apply Hlive. congruence.
+    + exists g. auto.
+  - intros c ch Hc Hcl. specialize (Kc c ch Hc Hcl). gcase r c; [congruence | exact Kc].
+  - intros r' X. inversion X; subst. erewrite nth_error_upd_same by eassumption. destruct Hp; subst; auto.
+Qed.
+
+Theorem lock_step_inv : forall l s s', LInv s -> step l s = Some s' -> LInv s'.
+Proof.
+  intros l s s' I H. unfold step in H. rewrite (L_panic _ I) in H.
+  pose proof I as I0. destruct I as [Kp Kr Kw Ki Kg Km Kc Kh Kwg].
+  destruct l.
+  - (* Commit *)
+    destruct (N.of_nat (length (schan s)) <? capS s)%N; try discriminate. inv_some.
+    constructor; cbn; auto; try solve [intros r0 X; cbn in X; try discriminate; specialize (Kwg r0 X); try (destruct (Nat.eq_dec r r0) as [<-|Hne0]; [destruct Kwg; congruence | rewrite nth_error_upd_other by assumption; exact Kwg])].
+  - (* SRecv *)
+    destruct (sp s) eqn:Es; try discriminate. destruct (schan s) as [|t rest]; try discriminate. inv_some.
+    constructor; cbn; auto; try discriminate; try solve [intros r0 X; cbn in X; try discriminate; specialize (Kwg r0 X); try (destruct (Nat.eq_dec r r0) as [<-|Hne0]; [destruct Kwg; congruence | rewrite nth_error_upd_other by assumption; exact Kwg])].
+  - (* SLock *)
+    destruct (sp s) as [|t| |] eqn:Es; try discriminate. destruct (lock s) eqn:El; try discriminate. inv_some.
+    constructor; cbn; auto; try discriminate; try solve [intros r0 X; cbn in X; try discriminate; specialize (Kwg r0 X); try (destruct (Nat.eq_dec r r0) as [<-|Hne0]; [destruct Kwg; congruence | rewrite nth_error_upd_other by assumption; exact Kwg])].
+    + intros r X. specialize (Kw r X). congruence.
+    + intros r g Hg W. specialize (Kg _ _ Hg W). congruence.
+  - (* SNext *)
+    destruct (sp s) as [| |t sn vis|] eqn:Es; try discriminate.
+    destruct (lookup (smap s) k) as [c|] eqn:Elk; try discriminate.
+    destruct (memb k vis); try discriminate.
+    assert (El : lock s = LkRead) by (apply Ki; unfold iterating; rewrite Es; reflexivity).
+    assert (Ew : writing s = None).
+    { destruct (writing s) eqn:E; auto. specialize (Kw _ eq_refl). congruence. }
+    rewrite Ew in H. inv_some. constructor; cbn; auto; try solve [intros r0 X; cbn in X; try discriminate; specialize (Kwg r0 X); try (destruct (Nat.eq_dec r r0) as [<-|Hne0]; [destruct Kwg; congruence | rewrite nth_error_upd_other by assumption; exact Kwg])].
+    intros t' sn' vis' c' X. inversion X; subst. exists k. apply lookup_In. exact Elk.
+  - (* SEnd *)
+    destruct (sp s) as [| |t sn vis|] eqn:Es; try discriminate.
+    destruct (forallb _ (smap s)); try discriminate.
+    assert (El : lock s = LkRead) by (apply Ki; unfold iterating; rewrite Es; reflexivity).
+    assert (Ew : writing s = None).
+    { destruct (writing s) eqn:E; auto. specialize (Kw _ eq_refl). congruence. }
+    rewrite Ew in H. inv_some. constructor; cbn; auto; try discriminate; try solve [intros r0 X; cbn in X; try discriminate; specialize (Kwg r0 X); try (destruct (Nat.eq_dec r r0) as [<-|Hne0]; [destruct Kwg; congruence | rewrite nth_error_upd_other by assumption; exact Kwg])].
+    + intros r X. congruence.
+    + intros r g Hg W. specialize (Kg _ _ Hg W). congruence.
+  - (* SSend *)
+    destruct (sp s) as [| | |t sn vis c] eqn:Es; try discriminate.
+    destruct (nth_error (chs s) c) as [ch|] eqn:Ec; try discriminate.
+    assert (Hop : closed ch = false).
+    { destruct (closed ch) eqn:E; auto. destruct (Kh _ _ _ _ eq_refl) as [k Hin].
+      destruct (Km _ _ Hin) as [g [H1 [H2 _]]]. rewrite (Kc _ _ Ec E) in H1. inversion H1; subst. destruct H2. }
+    rewrite Hop in H. destruct (N.of_nat (length (q ch)) <? capC s)%N; try discriminate. inv_some.
+    constructor; cbn; auto; try discriminate; try solve [intros r0 X; cbn in X; try discriminate; specialize (Kwg r0 X); try (destruct (Nat.eq_dec r r0) as [<-|Hne0]; [destruct Kwg; congruence | rewrite nth_error_upd_other by assumption; exact Kwg])].
+    + intros _. apply Ki. unfold iterating. rewrite Es. reflexivity.
+    + intros c' ch' Hc Hcl. gcase c c'; [inversion Hc; subst; discriminate | eauto].
+  - (* GInsB *)
+    destruct (nth_error (gs s) r) as [g|] eqn:Eg; try discriminate. destruct g; try discriminate.
+    apply (linv_write_begin s s' r GNew GIns I0 Eg); cbn; auto; try discriminate.
+  - (* GInsE *)
+    destruct (nth_error (gs s) r) as [g|] eqn:Eg; try discriminate. destruct g; try discriminate. inv_some.
+    assert (El : lock s = LkWrite r) by (eapply Kg; eauto; exact I).
+    constructor; cbn; auto; try discriminate; try solve [intros r0 X; cbn in X; try discriminate; specialize (Kwg r0 X); try (destruct (Nat.eq_dec r r0) as [<-|Hne0]; [destruct Kwg; congruence | rewrite nth_error_upd_other by assumption; exact Kwg])].
+    + intros X. specialize (Ki X). congruence.
+    + intros r' g Hg W. gcase r r'; [inversion Hg; subst; destruct W|]. specialize (Kg _ _ Hg W). congruence.
+    + intros k c [X|X].
+      * inversion X; subst. exists GLoop. erewrite nth_error_upd_same by eassumption. repeat split; auto; try exact I.
+      * apply remove_key_In in X as [X _]. destruct (Km _ _ X) as [g [H1 [H2 H3]]]. gcase r c.
+        -- rewrite Eg in H1. inversion H1; subst. destruct H2.
+        -- exists g. auto.
+    + intros c ch Hc Hcl. specialize (Kc c ch Hc Hcl). gcase r c; [congruence | exact Kc].
+    + intros t sn vis c Es. exfalso. assert (iterating s = true) by (unfold iterating; rewrite Es; reflexivity).
+      specialize (Ki H). congruence.
+  - (* GRecv *)
+    destruct (nth_error (gs s) r) as [g|] eqn:Eg; try discriminate. destruct g; try discriminate.
+    destruct (nth_error (chs s) r) as [ch|] eqn:Ec; try discriminate.
+    destruct (q ch) as [|t rest]; try discriminate. inv_some.
+    constructor; cbn; auto; try solve [intros r0 X; cbn in X; try discriminate; specialize (Kwg r0 X); try (destruct (Nat.eq_dec r r0) as [<-|Hne0]; [destruct Kwg; congruence | rewrite nth_error_upd_other by assumption; exact Kwg])].
+    + intros r' g Hg W. gcase r r'; [inversion Hg; subst; destruct W | eauto].
+    + intros k c Hin. destruct (Km _ _ Hin) as [g [H1 [H2 H3]]]. gcase r c.
+      * exists (GGot t). repeat split; auto; try exact I.
+      * exists g. auto.
+    + intros c ch' Hc Hcl. gcase r c.
+      * inversion Hc; subst. cbn in Hcl. specialize (Kc _ _ Ec Hcl). congruence.
+      * eauto.
+  - (* GSend *)
+    destruct (nth_error (gs s) r) as [g|] eqn:Eg; try discriminate. destruct g; try discriminate.
+    destruct ok; inv_some.
+    + constructor; cbn; auto; try solve [intros r0 X; cbn in X; try discriminate; specialize (Kwg r0 X); try (destruct (Nat.eq_dec r r0) as [<-|Hne0]; [destruct Kwg; congruence | rewrite nth_error_upd_other by assumption; exact Kwg])].
+      * intros r' g Hg W. gcase r r'; [inversion Hg; subst; destruct W | eauto].
+      * intros k c Hin. destruct (Km _ _ Hin) as [g [H1 [H2 H3]]]. gcase r c.
+        -- exists GLoop. repeat split; auto; try exact I.
+        -- exists g. auto.
+      * intros c ch' Hc Hcl. specialize (Kc _ _ Hc Hcl). gcase r c; [congruence | exact Kc].
+    + constructor; cbn; auto; try solve [intros r0 X; cbn in X; try discriminate; specialize (Kwg r0 X); try (destruct (Nat.eq_dec r r0) as [<-|Hne0]; [destruct Kwg; congruence | rewrite nth_error_upd_other by assumption; exact Kwg])].
+      * intros r' g Hg W. gcase r r'; [inversion Hg; subst; destruct W | eauto].
+      * intros k c Hin. destruct (Km _ _ Hin) as [g [H1 [H2 H3]]]. gcase r c.
+        -- exists GDel. repeat split; auto; try exact I.
+        -- exists g. auto.
+      * intros c ch' Hc Hcl. specialize (Kc _ _ Hc Hcl). gcase r c; [congruence | exact Kc].
+  - (* GDelB *)
+    destruct (nth_error (gs s) r) as [g|] eqn:Eg; try discriminate. destruct g; try discriminate.
+    apply (linv_write_begin s s' r GDel GDeling I0 Eg); cbn; auto; try discriminate.
+  - (* GDelE *)
+    destruct (nth_error (gs s) r) as [g|] eqn:Eg; try discriminate. destruct g; try discriminate. inv_some.
+    assert (El : lock s = LkWrite r) by (eapply Kg; eauto; exact I).
+    constructor; cbn; auto; try discriminate; try solve [intros r0 X; cbn in X; try discriminate; specialize (Kwg r0 X); try (destruct (Nat.eq_dec r r0) as [<-|Hne0]; [destruct Kwg; congruence | rewrite nth_error_upd_other by assumption; exact Kwg])].
+    + intros r' g Hg W. gcase r r'; [exact El | eauto].
+    + intros k c X. apply remove_key_In in X as [X Hk]. destruct (Km _ _ X) as [g [H1 [H2 H3]]]. gcase r c.
+      * contradiction.
+      * exists g. auto.
+    + intros c ch Hc Hcl. specialize (Kc c ch Hc Hcl). gcase r c; [congruence | exact Kc].
+    + intros t sn vis c Es. exfalso. assert (iterating s = true) by (unfold iterating; rewrite Es; reflexivity).
+      specialize (Ki H). congruence.
+  - (* GCloseL *)
+    destruct (nth_error (gs s) r) as [g|] eqn:Eg; try discriminate. destruct g; try discriminate.
+    destruct (nth_error (chs s) r) as [ch|] eqn:Ec; try discriminate. inv_some.
+    assert (El : lock s = LkWrite r) by (eapply Kg; eauto; exact I).
+    constructor; cbn; auto; try discriminate; try solve [intros r0 X; cbn in X; try discriminate; specialize (Kwg r0 X); try (destruct (Nat.eq_dec r r0) as [<-|Hne0]; [destruct Kwg; congruence | rewrite nth_error_upd_other by assumption; exact Kwg])].
+    + intros r' X. exfalso. pose proof (Kw _ X) as Y. rewrite El in Y. inversion Y; subst.
+      destruct (Kwg _ X); congruence.
+    + intros X. specialize (Ki X). congruence.
+    + intros r' g Hg W. gcase r r'; [inversion Hg; subst; destruct W|]. specialize (Kg _ _ Hg W). congruence.
+    + intros k c Hin. destruct (Km _ _ Hin) as [g [H1 [H2 H3]]]. gcase r c.
+      * rewrite Eg in H1. inversion H1; subst. destruct H2.
+      * exists g. auto.
+    + intros c ch' Hc Hcl. gcase r c; [reflexivity | eauto].
+  - (* GDrain *)
+    destruct (nth_error (gs s) r) as [g|] eqn:Eg; try discriminate.
+    destruct (nth_error (chs s) r) as [ch|] eqn:Ec; [|destruct g; discriminate].
+    destruct (q ch) as [|t rest] eqn:Eq; [destruct g; discriminate|].
+    assert (s' = set_chs s (upd r (mkchan rest (closed ch)) (chs s))) by (destruct g; try discriminate; inversion H; reflexivity).
+    subst s'.
+    constructor; cbn; auto; try solve [intros r0 X; cbn in X; try discriminate; specialize (Kwg r0 X); try (destruct (Nat.eq_dec r r0) as [<-|Hne0]; [destruct Kwg; congruence | rewrite nth_error_upd_other by assumption; exact Kwg])].
+    intros c ch' Hc Hcl. gcase r c.
+    + inversion Hc; subst. cbn in Hcl. eauto.
+    + eauto.
+Qed.
+
+Lemma lock_run_inv : forall ls s s', LInv s -> run_labels s ls = Some s' -> LInv s'.
+Proof.
+  induction ls as [|l r IH]; intros s s' I H; cbn in H.
+  - inv_some. exact I.
+  - destruct (step l s) as [s1|] eqn:E; try discriminate. apply (IH s1 s'); auto. eapply lock_step_inv; eauto.
+Qed.
+
+(** The first clause of the full statement, for the code after the fix: from the empty server, under EVERY
+    schedule of any number of replicas connecting, failing and disconnecting (client addresses may even
+    coincide) concurrently with the fan-out, no runtime fault and no racing map access is reachable. *)
+Theorem no_fault : forall ks cs cc ls s,
+  run_labels (init ks cs cc) ls = Some s -> panic s = None /\ race s = false.
+Proof.
+  intros. pose proof (lock_run_inv _ _ _ (linv_init ks cs cc) H) as I. split; [apply (L_panic _ I) | apply (L_race _ I)].
 Qed.
